@@ -319,7 +319,19 @@ def std_model(m, path, args, t):
         items = as_items(m, args[0])
         if items is not None:
             dest = str(m.b.locals.get(t['dest']['local'], ''))
-            if 'String' in dest:
+            if re.match(r'^(alloc::collections::(btree::map::)?)?BTreeMap<', dest):
+                out = {}
+                for it_ in items:
+                    it_ = m.deref_value(it_)
+                    if not (isinstance(it_, tuple) and it_ and it_[0] == 'tuple' and len(it_[1]) == 2):
+                        raise Unknown('collect into a map from %r' % (it_,))
+                    k_ = m.deref_value(it_[1][0])
+                    k_ = ''.join(str(c) for c in k_[1]) if is_str(k_) else k_
+                    if not isinstance(k_, str):
+                        raise Unknown('collect into a map with the key %r' % (k_,))
+                    out[k_] = it_[1][1]
+                return ('map', out)
+            if 'String' in dest.split('<')[0] or dest.endswith('String'):
                 return ('str', items)
             return ('vec', items)
     if re.search(r'Extend<.*>>::extend$|::extend$', path) and len(args) == 2 and is_str(a0):
